@@ -287,6 +287,46 @@ def run(db, tier):
     rep.floor("SimpleArg constructions in decode_args_with_abi", n_sa, 2)
     rep.check(bool(res), "R-IMM-INV", "decode_args_with_abi|consults is_always_immediate", da.loc, "is_always_immediate() is consulted", "is_always_immediate() is never consulted")
 
+    # ---------------- R-QUAD-DISPATCH: mechanical witness for the audited `unreachable!()` in std::read_quad
+    rep.rule("R-QUAD-DISPATCH", "read_quad: every (type, size) arm of the header match that lets control continue to the body names a quad type that the "
+                                "body's `match kind` handles; all other arms (terminator, wrong size, unknown type) return.  Witness for the audited "
+                                "`unreachable!()` of the body")
+    from facts import hir_walk as _hw
+    from rules import arms as _arms
+    rq = db.fn("formats::std::read_quad")
+    rep.fn(rq)
+    ms = [n for n in _hw(rq.hir) if n.get("k") == "Match" and n.get("src") == "Normal"]
+    def _lits(p, pos=None):
+        out = set()
+        if p.get("k") == "Or":
+            for q in p["ps"]:
+                out |= _lits(q, pos)
+            return out
+        if p.get("k") == "Tuple" and pos is not None and len(p["ps"]) > pos:
+            return _lits(p["ps"][pos], None)
+        if p.get("k") == "Lit":
+            return {("-" if p.get("neg") else "") + re.sub(r"_?[iu]\d+$", "", p["v"])}
+        if p.get("k") in ("Wild", "Bind"):
+            return {"_"}
+        return {"?"}
+    head = [m_ for m_ in ms if m_["s"].get("k") == "Tup"]
+    body = [m_ for m_ in ms if m_["s"].get("k") == "Path" and m_["s"].get("p") == "kind"]
+    okq = False
+    whyq = "the header match on (kind, size) or the body match on kind was not found"
+    if head and body:
+        cont = set()
+        for arm in head[0]["arms"]:
+            returns = any(x.get("k") == "Ret" for x in _hw(arm["b"])) or arm["b"].get("never")
+            if not returns:
+                cont |= _lits(arm["p"], 0)
+        handled = set()
+        for arm in body[0]["arms"]:
+            diverges = bool(arm["b"].get("never")) or "unreachable" in (arm["b"].get("x") or "")
+            if not diverges:
+                handled |= _lits(arm["p"])
+        okq = bool(cont) and cont <= handled and "_" not in cont
+        whyq = "quad types %s continue past the header check but the body only handles %s: the `unreachable!()` arm is reached on file data" % (sorted(cont), sorted(handled))
+    rep.check(okq, "R-QUAD-DISPATCH", "read_quad|continuing types are handled", rq.loc, "only types the body handles continue past the header check", whyq)
     # ---------------- R-PROGRESS: the instruction-reading loop consumes input on every iteration
     rep.rule("R-PROGRESS", "llir::read_instrs calls read_instr once on every trip round its loop, and every read_instr implementation reads at "
                            "least one primitive from the stream before it reports an instruction (the file is finite, so the loop ends)")
